@@ -10,6 +10,10 @@ import (
 // versionPattern matches NPM version strings
 var versionPattern = regexp.MustCompile(`^v?(\d+)\.(\d+)\.(\d+)(?:-([0-9A-Za-z-]+(?:\.[0-9A-Za-z-]+)*))?(?:\+([0-9A-Za-z-]+(?:\.[0-9A-Za-z-]+)*))?$`)
 
+// numericIdentifier matches pre-release identifiers that SemVer treats as numbers: digits only.
+// Identifiers such as "-5" are alphanumeric although strconv.Atoi would accept them.
+var numericIdentifier = regexp.MustCompile(`^[0-9]+$`)
+
 // Version represents an NPM package version following semantic versioning
 type Version struct {
 	major      int
@@ -167,6 +171,9 @@ func compareInt(a, b int) int {
 
 // parseNum returns the integer value and true if s is a valid number, otherwise 0 and false
 func parseNum(s string) (int, bool) {
+	if !numericIdentifier.MatchString(s) {
+		return 0, false
+	}
 	if num, err := strconv.Atoi(s); err == nil {
 		return num, true
 	}
